@@ -553,9 +553,9 @@ func detSites(w *World, fns map[*ssa.Function]bool) []detSite {
 					if header != nil {
 						blocks := loopBlocks(header)
 						s.Proved = collectThenSort(w, x, blocks)
-					if s.Proved == "" {
-						s.Proved = pureAccumulation(w, header, blocks)
-					}
+						if s.Proved == "" {
+							s.Proved = pureAccumulation(w, header, blocks)
+						}
 						s.What = "range " + desc + " {" + effectFingerprint(w, blocks) + "}"
 					} else {
 						s.What = "range " + desc
